@@ -87,10 +87,46 @@ def split_top(s, sep=","):
     return out
 
 
+def parse_call(t):
+    """`[dest = ]callee(args) -> [return: bbN, unwind ...];` with balanced
+    parentheses inside the callee path (e.g. `<Result<(), E> as Try>::branch`)."""
+    m = re.fullmatch(r"(.*\)) -> (?:\[return: (bb\d+), unwind[^\]]*\]|unwind [^;]*|\[unwind[^\]]*\]);", t)
+    if not m:
+        return None
+    head, nxt = m.group(1), m.group(2)
+    depth = 0
+    i = len(head) - 1
+    instr = False
+    while i >= 0:
+        c = head[i]
+        if c == '"' and (i == 0 or head[i - 1] != "\\"):
+            instr = not instr
+        elif not instr:
+            if c == ")":
+                depth += 1
+            elif c == "(":
+                depth -= 1
+                if depth == 0:
+                    break
+        i -= 1
+    if i < 0:
+        return None
+    argtxt = head[i + 1:-1]
+    pre = head[:i]
+    dest = None
+    dm = re.match(r"^(_\d+|\([^=]*\)) = (.*)$", pre)
+    if dm:
+        dest, callee = dm.group(1), dm.group(2)
+    else:
+        callee = pre
+    return dest, callee.strip(), argtxt, nxt
+
+
 class Mir:
     def __init__(self, path):
         self.fns = {}       # name -> [Fn] (several with same name possible)
         self.consts = {}    # last-segment name -> literal text
+        self._path = path
         self._parse(open(path).read())
 
     def _parse(self, txt):
@@ -407,6 +443,8 @@ class Exec:
 
     def operand(self, o, env, fn):
         o = o.strip()
+        if o.startswith("no_retag "):
+            o = o[len("no_retag "):]
         if o.startswith("copy "):
             return self.read_place(o[5:], env, fn)
         if o.startswith("move "):
@@ -524,7 +562,7 @@ class Exec:
                 if isinstance(v.variant, int):
                     return mk_int(v.variant, "isize")
             raise EncodingError("discriminant of %r in %s" % (v, fn.name))
-        m2 = re.fullmatch(r"(.+) as (\S+) \((\w+)\)", r)
+        m2 = re.fullmatch(r"(.+) as (.+?) \((\w+)\)", r)
         if m2:
             v = self.operand(m2.group(1), env, fn)
             if m2.group(3) == "IntToInt":
@@ -535,20 +573,34 @@ class Exec:
         if r.startswith("&"):
             p = re.sub(r"^&(?:mut |raw (?:const|mut) )?", "", r)
             return RefV(self.read_place(p, env, fn))
-        if r.startswith(("copy ", "move ", "const ")):
+        if r.startswith(("copy ", "move ", "const ", "no_retag ")):
             return self.operand(r, env, fn)
         if r.startswith("(") and r.endswith(")"):
             return TupleV([self.operand(x, env, fn) for x in split_top(r[1:-1])])
-        m3 = re.fullmatch(r"([\w:<>, ]+?)(?:::(\w+))?(?:\((.*)\)| \{(.*)\})?", r)
-        if m3:
-            # aggregate: Enum::Variant(args) / Struct { f: v } / unit variant
+        # aggregate: Path::Variant(args) / Path { f: v, .. } / unit variant
+        if r.endswith(")"):
+            depth, i = 0, len(r) - 1
+            while i >= 0:
+                if r[i] == ")":
+                    depth += 1
+                elif r[i] == "(":
+                    depth -= 1
+                    if depth == 0:
+                        break
+                i -= 1
+            if i > 0 and re.search(r"[\w>]$", r[:i]):
+                args = [self.operand(x, env, fn) for x in split_top(r[i + 1:-1])] if r[i + 1:-1].strip() else []
+                path = r[:i]
+                return EnumV(variant=path.split("::")[-1], fields=args, ty=path)
+        if r.endswith("}") and " {" in r:
+            i = r.index(" {")
             args = []
-            if m3.group(3) is not None:
-                args = [self.operand(x, env, fn) for x in split_top(m3.group(3))]
-            elif m3.group(4) is not None:
-                for x in split_top(m3.group(4)):
+            for x in split_top(r[i + 2:-1]):
+                if ":" in x:
                     args.append(self.operand(x.split(":", 1)[1], env, fn))
-            return EnumV(variant=m3.group(2) or m3.group(1), fields=args, ty=m3.group(1))
+            return EnumV(variant=r[:i].split("::")[-1], fields=args, ty=r[:i])
+        if re.fullmatch(r"[\w:<>, ()&']+", r):
+            return EnumV(variant=r.split("::")[-1], fields=[], ty=r)
         raise EncodingError("cannot parse rvalue %r in %s" % (r, fn.name))
 
     # ---- execution -----------------------------------------------------
@@ -651,11 +703,9 @@ class Exec:
                 pc = pc + [ok_term]
                 bb = m.group(4)
                 continue
-            m = re.fullmatch(r"(?:(.+?) = )?(.+?)\((.*)\) -> \[return: (bb\d+), unwind.*\];", t) or \
-                re.fullmatch(r"(?:(.+?) = )?(.+?)\((.*)\) -> (?:unwind .*|\[unwind.*\]);", t)
+            m = parse_call(t)
             if m:
-                dest, callee, argtxt = m.group(1), m.group(2), m.group(3)
-                nxt = m.group(4) if m.lastindex and m.lastindex >= 4 else None
+                dest, callee, argtxt, nxt = m
                 args = [self.operand(a, env, fn) for a in split_top(argtxt)] if argtxt.strip() else []
                 results = self.call(callee, args, pc, events, fn, depth)
                 if len(results) == 1 and results[0][2] is not None and nxt is not None:
